@@ -182,3 +182,39 @@ func VH_C03_Assignments(P, T int) {
 	}
 	vhReach("c03-assignments")
 }
+
+// Generation.CommitOffsets with several topics in one call: the coordinator records, for every topic and
+// partition, exactly the offset given for that topic and partition, under the generation's identity.
+func VH_C03_CommitOffsets(T, P int) {
+	vhConcreteClock(true)
+	co := &vhCoordinator{}
+	g := vhNewGeneration(co)
+	offsets := map[string]map[int]int64{}
+	for t := 0; t < T; t++ {
+		name := vhTopicName(t)
+		offsets[name] = map[int]int64{}
+		for p := 0; p < P; p++ {
+			o := vhInt64("offset")
+			vhAssume(vhAll(o >= 0, o < 1<<62))
+			offsets[name][p] = o
+		}
+	}
+	err := g.CommitOffsets(offsets)
+	vhAssert(err == nil, "commit-offsets-ok")
+	vhAssert(len(co.commits) == T*P, "one-recorded-commit-per-topic-partition")
+	for t := 0; t < T; t++ {
+		name := vhTopicName(t)
+		for p := 0; p < P; p++ {
+			n := 0
+			for _, cm := range co.commits {
+				if cm.topic == name && int(cm.partition) == p {
+					n++
+					vhAssert(cm.offset == offsets[name][p], "recorded-offset-is-the-one-given-for-that-topic-and-partition")
+					vhAssert(vhAll(cm.group == "g", cm.generation == 7, cm.member == "m"), "commit-carries-the-generation-identity")
+				}
+			}
+			vhAssert(n == 1, "each-topic-partition-committed-exactly-once")
+		}
+	}
+	vhReach("c03-commit-offsets")
+}
